@@ -43,6 +43,7 @@ struct Received {
 }
 
 fn one(rep: &mut Reporter, seed: u64, thorough: bool) {
+    rep.case(seed);
     let mut rng = Rng::new(seed);
     let nrem = 3 + rng.usize(3);
     // remotes[0..nrem] can connect; two more nodes only ever announce through others
